@@ -10,13 +10,13 @@ package main
 // A `panic` answer from the implementation is itself a C02 violation with the input as replay.
 
 import (
-	"time"
 	"bufio"
 	"encoding/asn1"
 	"fmt"
 	"os"
 	"path/filepath"
 	"strings"
+	"time"
 
 	zasn1 "github.com/zmap/zcrypto/encoding/asn1"
 	"github.com/zmap/zcrypto/x509"
@@ -246,7 +246,12 @@ func subWalkers(out string, seed uint64, tier string, arg string) {
 		}
 	}
 	// --- IsFQDN's prefix stripping, with a watchdog: these helpers loop on their input
+	fqHangs := 0
 	doFQ := func(b []byte) {
+		if fqHangs >= 3 {
+			rep.count("wfq:skipped-after-three-hangs") // every abandoned call keeps a core busy; three witnesses are enough
+			return
+		}
 		type ans struct{ arg, fq string }
 		ch := make(chan ans, 1)
 		go func() {
@@ -269,6 +274,7 @@ func subWalkers(out string, seed uint64, tier string, arg string) {
 				rep.violate(Violation{"C02", "util.IsFQDN / its prefix stripping panicked on " + hx(b), "panic:IsFQDN", map[string]interface{}{"bytes_hex": hx(b)}})
 			}
 		case <-time.After(3 * time.Second):
+			fqHangs++
 			emit("wfq\t"+hx(b), "hang")
 			rep.violate(Violation{"C01", "util.IsFQDN does not return on " + hx(b) + " (it is reached from e_name_constraint_not_fqdn and the SAN/IAN URI host lints)", "hang:IsFQDN", map[string]interface{}{"bytes_hex": hx(b)}})
 		}
